@@ -59,7 +59,7 @@ struct Runner {
         m.LoadCore(c);
         for (int d = 0; d < 2; ++d)
             for (int i = 0; i < 3; ++i)
-                m.apbp(d).data_channels[i].disable_interrupt = 0;
+                m.apbp(d).SetDisableInterrupt(i, 0);
         base = m.Save();
     }
 
@@ -136,7 +136,7 @@ struct Runner {
             }
         }
         if (d.family == 1) {
-            m.impl->btdmp[0].transmit_period = Period(d); // not reachable through MMIO
+            m.impl->btdmp[0].SetTransmitPeriod(Period(d)); // not reachable through MMIO
             for (u16 i = 0; i < d.queued; ++i)
                 t.MMIOWrite(0x2C6, (u16)(0x0101 + i));
             t.MMIOWrite(0x2BE, 0x8000);
@@ -211,8 +211,8 @@ struct Runner {
                             "bt.timer=%u bt.queued=%zu log=",
                             r.pc, r.sp, (unsigned long long)(r.a[0] & 0xFFFFFFFFFFull), (unsigned long long)(r.a[1] & 0xFFFFFFFFFFull), r.ie,
                             r.ip[0], r.ip[1], r.ip[2], r.ipv, m.DataWord((u16)(r.sp)), m.DataWord((u16)(r.sp + 1)),
-                            m.impl->timer[0].counter, m.impl->timer[1].counter, (u16)m.impl->icu.request.to_ulong(),
-                            m.impl->btdmp[0].transmit_timer, m.impl->btdmp[0].transmit_queue.size());
+                            m.impl->timer[0].counter, m.impl->timer[1].counter, m.impl->icu.GetRequest(),
+                            (unsigned)Machine::SaveBtdmp(m.impl->btdmp[0]).timer, Machine::SaveBtdmp(m.impl->btdmp[0]).queue.size());
         for (auto& l : m.log)
             s += l + ",";
         return s;
